@@ -81,20 +81,26 @@ func c16Types() []protoreflect.MessageDescriptor {
 	return out
 }
 
-func checkPack(h *hz.H, md protoreflect.MessageDescriptor, d protoreflect.Message, label string, dynFiles *protoregistry.Files, registered bool) {
+func checkPack(h *hz.H, md protoreflect.MessageDescriptor, d protoreflect.Message, label string, dynFiles *protoregistry.Files, registered, srcDynamic bool) {
 	tname := string(md.FullName())
 	var src proto.Message
-	if registered {
+	if registered && !srcDynamic {
 		src = enum.BuildGo(d)
 	} else {
-		src = d.Interface()
+		src = d.Interface() // a dynamicpb message: every type shares one Go type
+		label += " (dynamic source)"
 	}
 	ref, _ := proto.MarshalOptions{Deterministic: true}.Marshal(d.Interface())
 	canon := enum.Canon(d, false)
 	for _, on := range []string{"default", "Deterministic", "AllowPartial"} {
 		opts := proto.MarshalOptions{Deterministic: on == "Deterministic", AllowPartial: on == "AllowPartial"}
 		c := c16case{Kind: "pack", Type: tname, ValueHex: fmt.Sprintf("%x", ref), Opts: on}
-		key := func(o string) string { return fmt.Sprintf("C16/pack/%s/%s@%s", o, on, tname) }
+		key := func(o string) string {
+			if srcDynamic {
+				o += "/dynamic-source"
+			}
+			return fmt.Sprintf("C16/pack/%s/%s@%s", o, on, tname)
+		}
 		h.Eval(len(ref) > 0, hz.HashBytes([]byte("C16"), []byte(tname), []byte(on), ref))
 		dst := &anypb.Any{}
 		var err error
@@ -190,7 +196,11 @@ func runC16(h *hz.H) {
 		n := 0
 		registered := md.FullName() != dynMD.FullName()
 		sp.ForEach(1, 1, func(c enum.Case) bool {
-			checkPack(h, md, sp.BuildDyn(c), sp.Label(c), dynFiles, registered)
+			checkPack(h, md, sp.BuildDyn(c), sp.Label(c), dynFiles, registered, false)
+			if registered && n < 3 {
+				// the same value held by a dynamic message: packing dynamic messages of many different types in one process
+				checkPack(h, md, sp.BuildDyn(c), sp.Label(c), dynFiles, registered, true)
+			}
 			n++
 			return true
 		})
